@@ -3,12 +3,13 @@ package c13
 
 import (
 	"bytes"
-	"hash/fnv"
 	stdjson "encoding/json"
 	"fmt"
+	"hash/fnv"
 	"io"
 	"math/rand"
 	"strings"
+	"unicode/utf8"
 
 	"github.com/hashicorp/hcl/v2"
 	"github.com/hashicorp/hcl/v2/hclsyntax"
@@ -188,6 +189,58 @@ func Handle(c *core.Check, st core.State) {
 		}
 		return
 	}
+	// every extension of a dead prefix is rejected too (DeadIsFinal): close the open string and
+	// containers, so that the only thing wrong with the document is what killed the prefix
+	if mode == "dead" {
+		inStr, esc := false, false
+		var closers []string
+		for _, cl := range classes {
+			switch {
+			case inStr && esc:
+				esc = false
+			case inStr && cl == "BS":
+				esc = true
+			case inStr && cl == "DQ":
+				inStr = false
+			case inStr:
+			case cl == "DQ":
+				inStr = true
+			case cl == "LB":
+				closers = append(closers, "}")
+			case cl == "LK":
+				closers = append(closers, "]")
+			case (cl == "RB" || cl == "RK") && len(closers) > 0:
+				closers = closers[:len(closers)-1]
+			}
+		}
+		closed := string(src)
+		if esc {
+			closed += "n"
+		}
+		if inStr {
+			closed += `"`
+		}
+		for i := len(closers) - 1; i >= 0; i-- {
+			closed += closers[i]
+		}
+		if closed != string(src) {
+			c.Count("evaluations", 1)
+			var cd hcl.Diagnostics
+			vec2 := map[string]any{"kind": "doc", "source": closed, "classes": strings.Join(classes, " ") + " + closers"}
+			if rec, pn := core.Guard(func() { _, cd = hcljson.ParseExpression([]byte(closed), "x.json") }); pn {
+				c.Violation("panic/ParseExpression", fmt.Sprintf("json.ParseExpression(%q) panicked: %v", closed, rec), vec2)
+				return
+			}
+			if !cd.HasErrors() {
+				why := "syntax"
+				if hasBad {
+					why = "invalid-utf8"
+				}
+				c.Violation("invalid-json-accepted/"+why, fmt.Sprintf("%q extends the rejected prefix %q (%s) but is accepted without error", closed, src, strings.Join(classes, " ")), vec2)
+				return
+			}
+		}
+	}
 	// the file-level entry point
 	var fdiags hcl.Diagnostics
 	if rec, pn := core.Guard(func() { _, fdiags = hcljson.Parse(src, "x.json") }); pn {
@@ -314,7 +367,7 @@ func FixedDocs() []string {
 func HandleDoc(c *core.Check, doc string) {
 	src := []byte(doc)
 	c.Count("evaluations", 1)
-	accept := stdjson.Valid(src)
+	accept := stdjson.Valid(src) && utf8.Valid(src) // encoding/json tolerates invalid UTF-8, RFC 8259 does not
 	if strings.HasPrefix(doc, "\ufeff") {
 		return // a leading BOM: either verdict is accepted (RFC 8259 lets parsers ignore it)
 	}
